@@ -304,3 +304,228 @@ func lemmaModWrap(a, n int) {
 //@   requires s != nil
 //@   ensures  s.size == 0 && s.off == 0 && len(s.p) == 0 && s.nextNum == 0
 //@   modifies *s
+
+// ---------------------------------------------------------------------------
+// packet_writer.go / packet_parser.go: frame codecs (property C28).
+// One lemma per frame type: whatever the writer appends (when it reports added) is parsed back to
+// the same field values, and the parser consumes exactly the appended bytes; when the frame does
+// not fit nothing is appended. The frame functions are loop-free and run as their real bodies;
+// the varint primitives are used through their contracts (internal/quic/quicwire). The `cases`
+// clauses split the proof of multi-varint frames by the encoded size of each field.
+//
+// writerOK: a packet writer in the middle of a packet, whose bookkeeping buffer does not share
+// memory with the datagram buffer.
+//
+//@ pure
+func writerOK(w *packetWriter) bool {
+	return w.sent != nil && len(w.b) <= 1<<20 && w.pktLim <= 1<<20 && len(w.sent.b) <= 1<<20 && w.pktLim <= cap(w.b)
+}
+
+//@ lemma
+//@ requires w != nil && writerOK(w) && !samebase(w.sent.b, w.b)
+//@ requires 0 <= max && max <= 1<<62-1
+//@ ensures ok
+func lemmaFrameMaxData(w *packetWriter, max int64) (ok bool) {
+	start := len(w.b)
+	if !w.appendMaxDataFrame(max) {
+		return len(w.b) == start
+	}
+	if len(w.b) <= start {
+		return false
+	}
+	gmax, n := consumeMaxDataFrame(w.b[start:])
+	return gmax == max && w.b[start] == frameTypeMaxData && n == len(w.b)-start && w.sent.ackEliciting && w.sent.inFlight
+}
+
+//@ lemma
+//@ requires w != nil && writerOK(w) && !samebase(w.sent.b, w.b)
+//@ requires id <= 1<<62-1 && 0 <= max && max <= 1<<62-1
+//@ cases id < 1<<6 else id < 1<<14 else id < 1<<30
+//@ cases max < 1<<6 else max < 1<<14 else max < 1<<30
+//@ ensures ok
+func lemmaFrameMaxStreamData(w *packetWriter, id streamID, max int64) (ok bool) {
+	start := len(w.b)
+	if !w.appendMaxStreamDataFrame(id, max) {
+		return len(w.b) == start
+	}
+	if len(w.b) <= start {
+		return false
+	}
+	gid, gmax, n := consumeMaxStreamDataFrame(w.b[start:])
+	return gid == id && gmax == max && w.b[start] == frameTypeMaxStreamData && n == len(w.b)-start && w.sent.ackEliciting && w.sent.inFlight
+}
+
+//@ lemma
+//@ requires w != nil && writerOK(w) && !samebase(w.sent.b, w.b)
+//@ requires 0 <= max && max <= 1<<62-1
+//@ ensures ok
+func lemmaFrameDataBlocked(w *packetWriter, max int64) (ok bool) {
+	start := len(w.b)
+	if !w.appendDataBlockedFrame(max) {
+		return len(w.b) == start
+	}
+	if len(w.b) <= start {
+		return false
+	}
+	gmax, n := consumeDataBlockedFrame(w.b[start:])
+	return gmax == max && w.b[start] == frameTypeDataBlocked && n == len(w.b)-start && w.sent.ackEliciting && w.sent.inFlight
+}
+
+//@ lemma
+//@ requires w != nil && writerOK(w) && !samebase(w.sent.b, w.b)
+//@ requires id <= 1<<62-1 && 0 <= max && max <= 1<<62-1
+//@ cases id < 1<<6 else id < 1<<14 else id < 1<<30
+//@ cases max < 1<<6 else max < 1<<14 else max < 1<<30
+//@ ensures ok
+func lemmaFrameStreamDataBlocked(w *packetWriter, id streamID, max int64) (ok bool) {
+	start := len(w.b)
+	if !w.appendStreamDataBlockedFrame(id, max) {
+		return len(w.b) == start
+	}
+	if len(w.b) <= start {
+		return false
+	}
+	gid, gmax, n := consumeStreamDataBlockedFrame(w.b[start:])
+	return gid == id && gmax == max && w.b[start] == frameTypeStreamDataBlocked && n == len(w.b)-start && w.sent.ackEliciting && w.sent.inFlight
+}
+
+//@ lemma
+//@ requires w != nil && writerOK(w) && !samebase(w.sent.b, w.b)
+//@ requires id <= 1<<62-1 && code <= 1<<62-1 && 0 <= finalSize && finalSize <= 1<<62-1
+//@ cases id < 1<<6 else id < 1<<14 else id < 1<<30
+//@ cases code < 1<<6 else code < 1<<14 else code < 1<<30
+//@ cases finalSize < 1<<6 else finalSize < 1<<14 else finalSize < 1<<30
+//@ ensures ok
+func lemmaFrameResetStream(w *packetWriter, id streamID, code uint64, finalSize int64) (ok bool) {
+	start := len(w.b)
+	if !w.appendResetStreamFrame(id, code, finalSize) {
+		return len(w.b) == start
+	}
+	if len(w.b) <= start {
+		return false
+	}
+	gid, gcode, gsize, n := consumeResetStreamFrame(w.b[start:])
+	return gid == id && gcode == code && gsize == finalSize && w.b[start] == frameTypeResetStream && n == len(w.b)-start && w.sent.ackEliciting && w.sent.inFlight
+}
+
+//@ lemma
+//@ requires w != nil && writerOK(w) && !samebase(w.sent.b, w.b)
+//@ requires id <= 1<<62-1 && code <= 1<<62-1
+//@ cases id < 1<<6 else id < 1<<14 else id < 1<<30
+//@ cases code < 1<<6 else code < 1<<14 else code < 1<<30
+//@ ensures ok
+func lemmaFrameStopSending(w *packetWriter, id streamID, code uint64) (ok bool) {
+	start := len(w.b)
+	if !w.appendStopSendingFrame(id, code) {
+		return len(w.b) == start
+	}
+	if len(w.b) <= start {
+		return false
+	}
+	gid, gcode, n := consumeStopSendingFrame(w.b[start:])
+	return gid == id && gcode == code && w.b[start] == frameTypeStopSending && n == len(w.b)-start && w.sent.ackEliciting && w.sent.inFlight
+}
+
+//@ lemma
+//@ requires w != nil && writerOK(w) && !samebase(w.sent.b, w.b)
+//@ requires 0 <= seq && seq <= 1<<62-1
+//@ ensures ok
+func lemmaFrameRetireConnectionID(w *packetWriter, seq int64) (ok bool) {
+	start := len(w.b)
+	if !w.appendRetireConnectionIDFrame(seq) {
+		return len(w.b) == start
+	}
+	if len(w.b) <= start {
+		return false
+	}
+	gseq, n := consumeRetireConnectionIDFrame(w.b[start:])
+	return gseq == seq && w.b[start] == frameTypeRetireConnectionID && n == len(w.b)-start && w.sent.ackEliciting && w.sent.inFlight
+}
+
+//@ lemma
+//@ requires w != nil && writerOK(w) && !samebase(w.sent.b, w.b)
+//@ requires (typ == bidiStream || typ == uniStream) && 0 <= max && max <= maxStreamsLimit
+//@ ensures ok
+func lemmaFrameMaxStreams(w *packetWriter, typ streamType, max int64) (ok bool) {
+	start := len(w.b)
+	if !w.appendMaxStreamsFrame(typ, max) {
+		return len(w.b) == start
+	}
+	if len(w.b) <= start {
+		return false
+	}
+	gtyp, gmax, n := consumeMaxStreamsFrame(w.b[start:])
+	return gtyp == typ && gmax == max && (w.b[start] == frameTypeMaxStreamsBidi) == (typ == bidiStream) && (w.b[start] == frameTypeMaxStreamsUni) == (typ == uniStream) && n == len(w.b)-start && w.sent.ackEliciting && w.sent.inFlight
+}
+
+//@ lemma
+//@ requires w != nil && writerOK(w) && !samebase(w.sent.b, w.b)
+//@ requires (typ == bidiStream || typ == uniStream) && 0 <= max && max <= 1<<62-1
+//@ ensures ok
+func lemmaFrameStreamsBlocked(w *packetWriter, typ streamType, max int64) (ok bool) {
+	start := len(w.b)
+	if !w.appendStreamsBlockedFrame(typ, max) {
+		return len(w.b) == start
+	}
+	if len(w.b) <= start {
+		return false
+	}
+	gtyp, gmax, n := consumeStreamsBlockedFrame(w.b[start:])
+	return gtyp == typ && gmax == max && (w.b[start] == frameTypeStreamsBlockedBidi) == (typ == bidiStream) && (w.b[start] == frameTypeStreamsBlockedUni) == (typ == uniStream) && n == len(w.b)-start && w.sent.ackEliciting && w.sent.inFlight
+}
+
+// Frame parsers never panic on arbitrary bytes: the only precondition is the one their single
+// caller (the frame dispatch, which has just switched on b[0]) establishes. As callees they are
+// executed as their real bodies (inline).
+//
+//@ func consumeMaxDataFrame(b)
+//@   requires len(b) >= 1
+//@   inline
+//@ func consumeMaxStreamDataFrame(b)
+//@   requires len(b) >= 1
+//@   inline
+//@ func consumeMaxStreamsFrame(b)
+//@   requires len(b) >= 1
+//@   inline
+//@ func consumeStreamDataBlockedFrame(b)
+//@   requires len(b) >= 1
+//@   inline
+//@ func consumeDataBlockedFrame(b)
+//@   requires len(b) >= 1
+//@   inline
+//@ func consumeStreamsBlockedFrame(b)
+//@   requires len(b) >= 1
+//@   inline
+//@ func consumeResetStreamFrame(b)
+//@   requires len(b) >= 1
+//@   inline
+//@ func consumeStopSendingFrame(b)
+//@   requires len(b) >= 1
+//@   inline
+//@ func consumeRetireConnectionIDFrame(b)
+//@   requires len(b) >= 1
+//@   inline
+//@ func consumeCryptoFrame(b)
+//@   requires len(b) >= 1
+//@   inline
+//@ func consumeNewTokenFrame(b)
+//@   requires len(b) >= 1
+//@   inline
+//@ func consumeStreamFrame(b)
+//@   requires len(b) >= 1
+//@   inline
+//@ func consumeNewConnectionIDFrame(b)
+//@   requires len(b) >= 1
+//@   inline
+//@ func consumePathChallengeFrame(b)
+//@   requires len(b) >= 1
+//@   inline
+//@ func consumePathResponseFrame(b)
+//@   requires len(b) >= 1
+//@   inline
+//@ func consumeConnectionCloseTransportFrame(b)
+//@   requires len(b) >= 1
+//@   inline
+//@ func consumeConnectionCloseApplicationFrame(b)
+//@   requires len(b) >= 1
+//@   inline
